@@ -12,7 +12,10 @@ import (
 	"github.com/fiorix/go-diameter/diam/datatype"
 
 	charging_datatype "github.com/free5gc/chf/ccs_diameter/datatype"
+	"github.com/free5gc/chf/pkg/factory"
 )
+
+var _ = factory.ChfConfig
 
 func verif_forall[T any](f func(T) bool) bool { return true }
 
@@ -90,3 +93,12 @@ func specDigits(s string) string { return strings.Replace(s, ".", "", -1) }
 //@   ensures specKnown(specReq()) ==> specAns().ServiceRating != nil && specAns().ServiceRating.MonetaryTariff != nil && specAns().SessionId == specReq().SessionId
 //@   ensures specKnown(specReq()) && specReq().ServiceRating.RequestSubType == charging_datatype.REQ_SUBTYPE_DEBIT ==> specAns().ServiceRating.Price == specReq().ServiceRating.ConsumedUnits*specUnitCost(specAns().ServiceRating.MonetaryTariff) && specAns().ServiceRating.AllowedUnits == 0
 //@   ensures specKnown(specReq()) && specReq().ServiceRating.RequestSubType == charging_datatype.REQ_SUBTYPE_RESERVE && specUnitCost(specAns().ServiceRating.MonetaryTariff) != 0 ==> specAns().ServiceRating.AllowedUnits == specReq().ServiceRating.MonetaryQuota/specUnitCost(specAns().ServiceRating.MonetaryTariff) && specAns().ServiceRating.Price == specAns().ServiceRating.AllowedUnits*specUnitCost(specAns().ServiceRating.MonetaryTariff) && specAns().ServiceRating.Price <= specReq().ServiceRating.MonetaryQuota
+
+// ---- server start (C20) -----------------------------------------------------------------------------
+// The rating server starts from the validated configuration without a nil dereference: the mongodb,
+// rfDiameter and rfDiameter.tls sections it reads unconditionally are required by validation. The bodies of
+// the goroutines it starts are executed in the state at their go statement (go-bodies): the listener reads
+// rfDiameter.Tls; the two that only wait on channels are outside the subset and listed as not checked.
+//@ func OpenServer [C20]
+//@   go-bodies
+//@   requires factory.SpecValidated(factory.ChfConfig) && wg != nil
